@@ -24,6 +24,7 @@ func main() {
 	n := fs.Int("n", 10, "number of histories")
 	depth := fs.Int("depth", 40, "blocks per history")
 	mode := fs.String("mode", "", "driver mode")
+	network := fs.String("network", "regtest", "bitcoin network of the chain")
 	pr := fs.Int64("pr", 1, "locking power reduction")
 	maxVals := fs.Int64("max-vals", 2, "locking MaxValidators")
 	period := fs.Int64("period", 3, "relayer electing period (ticks)")
@@ -37,6 +38,8 @@ func main() {
 	switch cmd {
 	case "merkle":
 		count, err = drive.MerkleReplay(*cases, *out, *seed, *inst)
+	case "bridge":
+		count, err = drive.BridgeRandom(*out, *seed, *n, *depth, *mode, *network)
 	case "locking":
 		count, err = drive.LockingRandom(*out, *seed, *n, *depth, drive.LockingOpts{PowerReduction: *pr, MaxVals: *maxVals, NVals: 5, Mode: *mode})
 	case "relayer":
